@@ -230,4 +230,26 @@ theorem B2.nodup_liveNames (s : B2) (h : s.Inv) : s.liveNames.Nodup := by
   unfold B2.liveNames
   exact (List.filter_sublist.map _).nodup h
 
+/-! ## S3 and the wall clock -/
+
+/-- whatever the clock shows, the stamp the adapter builds from ONE reading is internally consistent: the scope date is the date
+of `x-amz-date` and the signing key is that date's -/
+theorem s3Accepts_stamp (skew : Nat) (client server : Time) :
+    s3Accepts skew server (s3Stamp client) = withinSkew skew client server := by
+  simp [s3Accepts, s3Stamp]
+
+theorem S3.stepT_of_within (skew ps : Nat) (s : S3) (t : Timed) (h : withinSkew skew t.client t.server = true) :
+    S3.stepT skew ps s t = S3.step ps s t.op := by
+  simp [S3.stepT, s3Accepts_stamp, h]
+
+/-- under clocks that agree up to the service's window a timed history is the untimed one -/
+theorem S3.runT_eq (skew ps : Nat) (s : S3) (ts : List Timed) (h : ∀ t ∈ ts, withinSkew skew t.client t.server = true) :
+    S3.runT skew ps s ts = runHistory (S3.step ps) s (ts.map (·.op)) := by
+  induction ts generalizing s with
+  | nil => rfl
+  | cons t ts ih =>
+    have ht := S3.stepT_of_within skew ps s t (h t (by simp))
+    simp only [S3.runT, List.map_cons, runHistory, ht]
+    rw [ih _ (fun u hu => h u (List.mem_cons_of_mem _ hu))]
+
 end Replicat.Store
